@@ -501,6 +501,7 @@ class BasicZoneProcessor: public ZoneProcessor {
       }
 
       mYearTiny = yearTiny;
+      mIsFilled = false;
       mNumTransitions = 0; // clear cache
 
       if (yearTiny + LocalDate::kEpochYear < mZoneInfo.startYear() - 1
